@@ -119,7 +119,10 @@ def _id_lt(a, b):
 
 
 def gen_hdiff(rng):
-    hdr, cs, rh = head("hdiff", rng)
+    # 30 %: two executions with heights that become known in between (`N` records) - in 2 of 3 of these NO height of the
+    # line is known at the first execution (the first known height of the line appears only after another strategy ran)
+    late_mode = rng.random() < 0.3
+    hdr, cs, rh = head("hdiff", rng, reps=2 if late_mode else None)
     n = rng.randint(2, 6)
     ids = pick_ids(rng, n)
     T = {i: coords(rng) for i in ids}
@@ -127,6 +130,12 @@ def gen_hdiff(rng):
     known = {i for i in ids if rng.random() < 0.35} or {rng.choice(ids)}
     if rng.random() < 0.1:
         known = set()
+    late = []
+    if late_mode:
+        if rng.random() < 0.67:
+            known = set()
+        unk = [i for i in ids if i not in known]
+        late = rng.sample(unk, min(len(unk), rng.choice([1, 1, 2])))
     recs = [P(i, T[i], rng.random() < 0.5, i in known, rng.random() < 0.7, rng.random() < 0.9)
             for i in ids if i in known or rng.random() < 0.8]
     order = ids[:]
@@ -150,6 +159,11 @@ def gen_hdiff(rng):
     for g in groups:
         if g:
             recs.append("H " + " ".join(g))
+    if late:
+        # the heights another strategy publishes between the first and the second execution of AcordHdiff
+        for i in late:
+            recs.append(f"N {i} {H(T[i][2])}")
+        branch.add("late-first-height" if not known else "late-height")
     return hdr + " " + " ".join(recs), dict(alg="hdiff", truth=T, consistent=consistent, branches=branch)
 
 
@@ -376,6 +390,177 @@ def gen_intersection(rng):
             rng.shuffle(obs)
         recs.append(f"S {st} " + " ".join(obs))
     return hdr + " " + " ".join(recs), dict(alg="intersection", truth=T, consistent=consistent, branches=branch)
+
+
+def gen_acord2(rng):
+    """a whole network for Acord2::execute: 2..4 given points, then 2..6 construction stages, each tying a new point (or
+    the missing height of an existing one) to points that are known OR will be known after an earlier stage, by a
+    construction of ONE strategy: azimuth + distance (AcordAzimuth), levelling (AcordHdiff), zenith angle + distance
+    either way (AcordZderived), a vector (AcordVector), distances / directions from oriented stations / resection
+    (AcordIntersection), and - rarely - direction + distance from one station (AcordPolar: no model, the case must be
+    reported as `acted`).  Exact data only.  The position of a stage's strategy in the list az, hd, zd, vec, polar, ai
+    against the stage order decides the number of rounds."""
+    cs, rh = rng.randrange(8), rng.randrange(2)
+    xn = x_north(cs, rh)
+    nk = rng.randint(2, 4)
+    ns = rng.randint(2, 6)
+    ids = pick_ids(rng, min(len(ID_POOL), nk + ns))
+    T = {i: coords(rng) for i in ids}
+    known, fresh = ids[:nk], ids[nk:]
+    xy = set(known)                                   # points that have / will have xy
+    z0 = {i for i in known if rng.random() < 0.6}     # given heights
+    if not z0 and rng.random() < 0.8:
+        z0 = {rng.choice(known)}
+    z = set(z0)
+    ori = {}
+    st, hds, vecs = {}, [], []
+    branch = set()
+    want_z = set()
+
+    def O(s):
+        if s not in ori:
+            ori[s] = rng.uniform(0, TWO_PI)
+        return ori[s]
+
+    def add(s, rec):
+        st.setdefault(s, []).append(rec)
+
+    def direction(f, t):
+        add(f, f"dir {f} {t} {H((brg(T[f], T[t]) - O(f)) % TWO_PI)}")
+
+    def distance(a, b):
+        f, t = (a, b) if rng.random() < 0.5 else (b, a)
+        add(f, f"d {f} {t} {H(hd(T[f], T[t]))}")
+
+    def orient(s):
+        others = [k for k in xy if k != s]
+        for t in rng.sample(others, min(len(others), rng.choice([1, 2]))):
+            direction(s, t)
+
+    def height(x):
+        """a source for the height of x (x has / will have xy unless it is a bench mark)"""
+        want_z.add(x)
+        kinds = ["hd", "hd", "zd-target", "zd-station", "none"]
+        if not z:
+            return
+        k = rng.choice(kinds)
+        if k == "none":
+            return
+        b = rng.choice(sorted(z))
+        if k == "hd":
+            # a levelling line b -> (0..2 bench marks without xy) -> x
+            line = [b] + [m for m in fresh_marks[:rng.choice([0, 0, 1, 2])]] + [x]
+            del fresh_marks[:len(line) - 2]
+            for p, q in zip(line, line[1:]):
+                f, t = (p, q) if rng.random() < 0.5 else (q, p)
+                hds.append(f"hd {f} {t} {H(T[t][2] - T[f][2])}")
+            for m in line[1:-1]:
+                marks.add(m); z.add(m)
+            branch.add("hd-late" if b not in z0 else "hd")
+            z.add(x)
+            return
+        if x not in xy or b not in xy or b == x:
+            return
+        use_dh = rng.random() < 0.5
+        fdh = rng.uniform(1.2, 1.9) if use_dh else 0.0
+        tdh = rng.uniform(0.1, 2.6) if use_dh else 0.0
+        s, t = (b, x) if k == "zd-target" else (x, b)
+        h = hd(T[s], T[t])
+        dzi = T[t][2] + tdh - (T[s][2] + fdh)
+        za = math.atan2(h, dzi)
+        if rng.random() < 0.15:
+            za = TWO_PI - za
+        add(s, f"za {s} {t} {H(za)} {H(fdh)} {H(tdh)}")
+        r = rng.random()
+        if r < 0.4:
+            add(s, f"d {s} {t} {H(h)}")
+        elif r < 0.8:
+            add(s, f"sd {s} {t} {H(math.hypot(h, dzi))} {H(fdh)} {H(tdh)}")
+        branch.add(k + ("-late" if b not in z0 else ""))
+        z.add(x)
+
+    marks = set()
+    n_marks = rng.choice([0, 0, 1, 2])
+    fresh_marks = fresh[len(fresh) - n_marks:] if n_marks else []
+    fresh = fresh[:len(fresh) - n_marks] if n_marks else fresh
+    for x in known:
+        if x not in z0 and rng.random() < 0.5:
+            height(x)
+    for x in fresh:
+        have = sorted(xy)
+        kinds = ["dist2", "dist3", "dirdir", "resect", "az", "az", "vec", "polar"] if rng.random() < 0.15 else \
+                ["dist2", "dist3", "dirdir", "resect", "az", "az", "vec"]
+        if len(have) < 3:
+            kinds = [k for k in kinds if k not in ("dist3", "resect")]
+        full = [p for p in have if p in z]
+        if not full:
+            kinds = [k for k in kinds if k != "vec"]
+        k = rng.choice(kinds)
+        branch.add(k)
+        a, b = rng.sample(have, 2)
+        if k == "dist2":
+            distance(a, x); distance(b, x)
+            if len(have) >= 3 and rng.random() < 0.7:      # a third observation for the side
+                c = rng.choice([p for p in have if p not in (a, b)])
+                if rng.random() < 0.5:
+                    distance(c, x)
+                else:
+                    orient(c); direction(c, x)
+        elif k == "dist3":
+            for s in rng.sample(have, 3):
+                distance(s, x)
+        elif k == "dirdir":
+            for s in (a, b):
+                orient(s); direction(s, x)
+        elif k == "resect":
+            for t in rng.sample(have, min(len(have), rng.choice([3, 3, 4]))):
+                direction(x, t)
+        elif k == "az":
+            f, t = (a, x) if rng.random() < 0.5 else (x, a)
+            add(f, f"az {f} {t} {H((brg(T[f], T[t]) - xn) % TWO_PI)}")
+            distance(a, x)
+        elif k == "vec":
+            b = rng.choice(full)
+            f, t = (b, x) if rng.random() < 0.5 else (x, b)
+            comp = [f"dx {f} {t} {H(T[t][0] - T[f][0])}", f"dy {f} {t} {H(T[t][1] - T[f][1])}", f"dz {f} {t} {H(T[t][2] - T[f][2])}"]
+            vecs.append(comp)
+            z.add(x)
+        else:                                               # polar: AcordPolar (no model)
+            orient(a); direction(a, x); add(a, f"d {a} {x} {H(hd(T[a], T[x]))}")
+        xy.add(x)
+        if x not in z and rng.random() < 0.6:
+            height(x)
+    recs = []
+    for i in ids:
+        if i in known:
+            recs.append(P(i, T[i], 1, i in z0, rng.random() < 0.9, 1 if i in want_z else rng.random() < 0.5))
+        elif i in marks:
+            if rng.random() < 0.85:
+                recs.append(P(i, T[i], 0, 0, 0, 1))
+        elif i in xy and (rng.random() < 0.85 or i in want_z):
+            recs.append(P(i, T[i], 0, 0, 1, 1 if i in want_z else rng.random() < 0.3))
+    blocks = []
+    for s_, obs in st.items():
+        if rng.random() < 0.5:
+            rng.shuffle(obs)
+        blocks.append(f"S {s_} " + " ".join(obs))
+    if hds:
+        rng.shuffle(hds)
+        g = [[]]
+        for h_ in hds:
+            if g[-1] and rng.random() < 0.3:
+                g.append([])
+            g[-1].append(h_)
+        blocks += ["H " + " ".join(x) for x in g]
+    if vecs:
+        g = [[]]
+        for c in vecs:
+            if g[-1] and rng.random() < 0.3:
+                g.append([])
+            g[-1] += c
+        blocks += ["V " + " ".join(x) for x in g]
+    rng.shuffle(blocks)
+    return f"acord2 {cs} {rh} " + " ".join(recs + blocks), dict(alg="acord2", truth=T, consistent=True, branches=branch)
 
 
 GENS = [gen_azimuth, gen_hdiff, gen_vector, gen_zderived, gen_intersection, gen_intersection]
